@@ -67,7 +67,7 @@ P = {
  ["real schedules and the Go memory model (a lock-discipline proof, not a race detector)", "exported fields users may touch without the lock"],
  TECH + ", guarded-by obligations"),
 "C13": (True,
- "Deductive proof of compressor ownership: NewCompressingResponseWriter acquires exactly one compressor and Resets it; Close releases it exactly once and refuses a second Close; dispatch and Request.ReadEntity release everything they acquire on every exit (ghost counters); ReadEntity Resets the pooled reader onto the body before any read; BoundedCachedCompressors Acquire* return a fresh or pooled-and-unheld object and Release* never blocks (select with default) and only sends an object the caller held.",
+ "Deductive proof of compressor ownership: NewCompressingResponseWriter acquires exactly one compressor and Resets it; Close releases it exactly once and refuses a second Close; Request.ReadEntity releases everything it acquires on every exit (ghost counters; the same balance for dispatch is an obligation of the C10 check); ReadEntity Resets the pooled reader onto the body before any read; BoundedCachedCompressors Acquire* return a fresh or pooled-and-unheld object and Release* never blocks (select with default) and only sends an object the caller held.",
  COMMON_ASSUME + "A-POOL (channel model: receive yields an object some release sent), A-CODEC, SyncPoolCompessors (sync.Pool) not modelled; user callbacks cannot release the gzip reader ReadEntity holds.",
  ["real schedules", "sync.Pool internals", "ReadEntity leaves Request.Body pointing at the released reader (D13, candidate only, sequentially benign)"],
  TECH),
